@@ -74,7 +74,7 @@ void nmc_enumerate(const nmc::Tier& t, const nmc::Sink& emit) {
         }
         // the OPTIONAL arguments of the named wrappers (each wrapper forwards them itself): sum / prod with dtype int32 over an int8 source whose fold leaves int8 and an
         // initial value, amax / amin with an initial value beyond every element, mean / var / stddev with dtype float64 over an int32 source and ddof 1
-        for (long kd = 0; kd <= 1; kd++) for (int f = 0; f < 7; f++) { emit(Case("nopt_none", {{f}, s, {kd}})); for (long a = -d; a < d; a++) emit(Case("nopt1", {{f}, s, {a}, {kd}})); }
+        for (long kd = 0; kd <= 1; kd++) for (int f = 0; f < 9; f++) { emit(Case("nopt_none", {{f}, s, {kd}})); for (long a = -d; a < d; a++) emit(Case("nopt1", {{f}, s, {a}, {kd}})); }   // f 7 / 8: var / stddev with ddof 2 (a ddof treated as an on/off flag is right for 0 and 1 only)
         for (long a = -d; a < d; a++) { emit(Case("cumsum", {s, {a}})); emit(Case("cumprod", {s, {a}})); }
         // the dtype argument of cumsum / cumprod: variant 0 = int8 source whose running fold leaves int8 (100s resp. 4s along the axis), dtype int32;
         // variant 1 = int32 source, dtype float64.  The fold and the result element type must be the requested type's (seeded change m08c dropped dtype).
@@ -264,12 +264,13 @@ Outcome nmc_execute(const Case& c) {
             double cnt = cnt_of(sum); RArr mean = *sum; for (auto& v : mean.data) v /= cnt;
             if (f == 4) { want = mean; rtol = 1e-12; }
             else {
-                if (cnt - 1 <= 0) return Outcome::ok(false, 9);
+                const double ddof = f >= 7 ? 2 : 1;
+                if (cnt - ddof <= 0) return Outcome::ok(false, 9);
                 ROpt mk = ref::reduce(r, axp, true, nullptr, [](double x, double y) { return x + y; }); RArr mkeep = *mk; for (auto& v : mkeep.data) v /= cnt;
                 RArr dev = r; RArr bm = *ref::broadcast_to(mkeep, r.shape); for (size_t i = 0; i < dev.data.size(); i++) { double t = r.data[i] - bm.data[i]; dev.data[i] = t * t; }
                 ROpt ss = ref::reduce(dev, axp, keep, nullptr, [](double x, double y) { return x + y; });
-                RArr v = *ss; for (auto& x : v.data) x /= (cnt - 1);
-                if (f == 6) for (auto& x : v.data) x = std::sqrt(x);
+                RArr v = *ss; for (auto& x : v.data) x /= (cnt - ddof);
+                if (f == 6 || f == 8) for (auto& x : v.data) x = std::sqrt(x);
                 want = v; rtol = 1e-9;
             }
         }
@@ -298,6 +299,8 @@ Outcome nmc_execute(const Case& c) {
                 auto a = make_arr<int32_t>(r); for (long i = 0; i < n; i++) a.data_[(size_t)i] = (int32_t)r.data[(size_t)i];
                 if (f == 4) return fin(view::mean(a, ax, nm::float64, k), na::mean(a, ax, nm::float64, k), meta::as_value_v<double>, rtol);
                 if (f == 5) return fin(view::var(a, ax, nm::float64, 1, k), na::var(a, ax, nm::float64, 1, k), meta::as_value_v<double>, rtol);
+                if (f == 7) return fin(view::var(a, ax, nm::float64, 2, k), na::var(a, ax, nm::float64, 2, k), meta::as_value_v<double>, rtol);
+                if (f == 8) return fin(view::stddev(a, ax, nm::float64, 2, k), na::stddev(a, ax, nm::float64, 2, k), meta::as_value_v<double>, rtol);
                 return fin(view::stddev(a, ax, nm::float64, 1, k), na::stddev(a, ax, nm::float64, 1, k), meta::as_value_v<double>, rtol);
             };
             if (keep) return kd(nm::True); return kd(nm::False);
